@@ -25,6 +25,7 @@ CHECKS = {
     "C12": "c12",
     "C13": "c13",
     "C15": "c15",
+    "C16": "c16",
     "C17": "c17",
     "C19": "c19",
 }
